@@ -1078,10 +1078,33 @@ def lits_of(deck):
     return [e[1] for e in expr[1:]] if expr[0] == '*' else [expr[1]]
 
 
+def revive(obj):
+    '''Undo what JSON does to an abstract deck: expression / ('num', n) nodes
+    are tuples, transformation and material numbers are ints.'''
+    if isinstance(obj, list):
+        items = [revive(x) for x in obj]
+        if items and isinstance(items[0], str) and items[0] in (
+                's', 'f', '*', ':', '#', '#c', 'num'):
+            return tuple(items)
+        return items
+    if isinstance(obj, dict):
+        out = {}
+        for key, val in obj.items():
+            if isinstance(key, str) and key.lstrip('-').isdigit():
+                key = int(key)
+            out[key] = revive(val)
+        if 'ranges' in out and out['ranges'] is not None:
+            out['ranges'] = [tuple(r) for r in out['ranges']]
+        return out
+    return obj
+
+
 def replay(path):
     '''Re-run the recorded input through the implementation and the oracle.'''
     data = json.load(open(path))
     inp = data.get('input', {})
+    if 'abstract' in inp:
+        inp['abstract'] = revive(inp['abstract'])
     print('recorded:', data.get('what'))
     if 'deck' in inp:
         records = []
